@@ -59,7 +59,7 @@ def run(ctx):
         seqs = [r.randrange(4), r.randrange(4)]
         probes = [streams.command_frame(r, seqs[0]), streams.command_frame(r, seqs[1])]
         s = pre + bytes(330) + probes[0] + probes[1]
-        seq, tr, ev = r.randrange(4), r.random() < 0.8, r.random() < 0.5
+        seq, tr, ev = r.randrange(4), r.random() < 0.8, r.choice([0, 0, 1, 1, 2, 3])
         for clabel, chunks in streams.chunkings(r, s, ctx.scale(2, 8), ctx.scale(1, 3)):
             if clabel == "bytewise" and r.random() < 0.7:
                 continue
@@ -71,7 +71,7 @@ def run(ctx):
                      sample=dict(prefix=label, chunking=clabel, state=inp["state"], handler_raises_at=list(raise_at),
                                  tail_of_log=[x[:30] for x in ",".join(outs).split(",")[-4:]]))
             ctx.count("prefix:" + label.split(" ")[0].split("+")[0])
-            ctx.count("state:transport=%d,event=%d" % (tr, ev))
+            ctx.count("state:transport=%d,send=%s" % (tr, ["none", "waiting", "acked", "expired"][ev]))
             if raised:
                 ctx.counterexample("rx-raised", inp, "no exception", raised, "data_received raised %s" % raised)
             log = [x for o in outs if o != "." for x in o.split(",")]
@@ -90,10 +90,59 @@ def run(ctx):
                                    "well-formed frames following the hostile input are not delivered and acknowledged")
             all_lines.append(rxworld.rx_line(chunks, seq, tr, ev))
             all_meta.append((inp, " ".join(outs) + " | " + final))
+    # a rejected but complete frame immediately followed (same read or next read) by well-formed frames: every
+    # frame the left-to-right parse of the stream selects (Lean `offline`, C01_complete) must come out
+    direct = []
+    for seqp in range(4):
+        body = bytes(r.getrandbits(8) for _ in range(r.randrange(4, 40)))
+        direct += [
+            ("bad-body-crc", streams.raw_frame(0xC0 | (seqp << 2), body, good_crc16=False)),
+            ("bad-body-crc-cont", streams.raw_frame(0x00 | (seqp << 2), body, good_crc16=False)),
+            ("bad-body-crc-last", streams.raw_frame(0x80 | (seqp << 2), body, good_crc16=False)),
+            ("short-first", streams.raw_frame(0x40 | (seqp << 2), body[:r.randrange(0, 4)])),
+            ("short-cont", streams.raw_frame(0x00 | (seqp << 2), None, length=5 + r.randrange(1, 2)) + bytes(1)),
+            ("ack-long", streams.header_only(5 + r.randrange(1, 9), (seqp << 4) | 1)),
+            ("bad-crc8", streams.raw_frame(0xC0 | (seqp << 2), body, good_crc8=False)),
+            ("wrong-type", streams.header_only(len(body) + 7, 0xC0, ftype=5) + bytes(2) + body),
+        ]
+    dlines, dmeta = [], []
+    for label, bad in direct:
+        seqs = [r.randrange(4) for _ in range(3)]
+        probes = [streams.command_frame(r, q) for q in seqs]
+        s = bad + b"".join(probes)
+        for clabel, chunks in (("whole", [s]), ("after-bad", [bad, s[len(bad):]]),
+                               ("inside-bad", [s[:max(1, len(bad) - 3)], s[max(1, len(bad) - 3):]])):
+            ev = r.choice([0, 1, 2, 3])
+            seq = r.randrange(4)
+            outs, final, raised = rxworld.session(chunks, seq, True, ev, ())
+            inp = dict(prefix=label, stream=hx(s), chunking=clabel, chunks=[hx(c) for c in chunks],
+                       state=dict(pack_seq=seq, transport=True, ack_event=ev), handler_raises_at=[])
+            ctx.case((s, clabel, seq, ev), sample=dict(prefix=label, chunking=clabel, state=inp["state"]))
+            ctx.count("prefix:direct-" + label)
+            if raised:
+                ctx.counterexample("rx-raised", inp, "no exception", raised, "data_received raised %s" % raised)
+            dlines.append("offline " + hx(s))
+            dmeta.append((inp, outs, probes))
+            all_lines.append(rxworld.rx_line(chunks, seq, True, ev))
+            all_meta.append((inp, " ".join(outs) + " | " + final))
+    oracle = ctx.driver.ask(dlines) if ctx.driver else [None] * len(dlines)
+    for (inp, outs, probes), off in zip(dmeta, oracle):
+        log = [x for o in outs if o != "." for x in o.split(",")]
+        ds = [x for x in log if x.startswith("D")]
+        if off is not None:
+            want_n = 0 if off.startswith(".") else len(off.split(" rem=")[0].split(","))
+        else:
+            want_n = None
+        # the probe frames lie outside every declared extent by construction unless the oracle says otherwise
+        missing = [k for k, pr in enumerate(probes) if not any(d.endswith(":" + hx(pr[13:])) for d in ds)]
+        if want_n is not None and want_n >= len(probes) and missing:
+            ctx.counterexample("deaf-after-reject", inp, "all %d probe frames delivered" % len(probes),
+                               "probe(s) %s missing; delivered %d frame(s)" % (missing, len(ds)),
+                               "a well-formed frame directly behind a rejected frame is not delivered")
     if ctx.driver:
         ans = ctx.driver.ask(all_lines)
         for (inp, impl), m in zip(all_meta, ans):
-            if m != impl:
+            if rxworld.mask_like(m, impl) != impl:
                 ctx.mismatch("rx", inp, m, impl)
 
 
